@@ -29,6 +29,7 @@ fn mode_dispatch(args: &[String]) -> Result<(), String> {
         Some("node") => node::run_stdin(),
         Some("api") => api::run_stdin(),
         Some("txn") => txn::run_stdin(),
+        Some("api2") => api::run_stdin2(),
         _ => Err("usage: harness gc|gc-enum ...".into()),
     }
 }
